@@ -296,6 +296,13 @@ def encs(s):
     return "".join(c if (c.isalnum() and ord(c) < 128) or c in "_." else "%%%02x" % ord(c) for c in s)
 
 
+def precompile(p):
+    """history: a tree is compiled against the set BEFORE its arguments are renamed (compile - rename - compile); what
+    compile builds for later trees must not depend on that earlier call (seeded change C12-r6m3 caches the lambda header)"""
+    if p.arguments:
+        gp.compile(gp.PrimitiveTree([p.mapping[p.arguments[0]]]), p)
+
+
 def untyped(key, nargs, prims, consts, named=(), eph=True, rename=None):
     """an untyped set named MAIN"""
     p = register_args(gp.PrimitiveSet("MAIN", nargs))
@@ -308,6 +315,7 @@ def untyped(key, nargs, prims, consts, named=(), eph=True, rename=None):
     if eph:
         p.addEphemeralConstant(uniq("E"), e_int)
     if rename:
+        precompile(p)
         p.renameArguments(**rename)
     return PS(key, p)
 
@@ -398,6 +406,7 @@ def typed(key, ins, ret, rename=None):
     p.addEphemeralConstant(uniq("EF"), e_flt, float)
     p.addEphemeralConstant(uniq("EB"), e_bool, bool)
     if rename:
+        precompile(p)
         p.renameArguments(**rename)
     return PS(key, p)
 
